@@ -1,5 +1,6 @@
 import AdfObdd.AdfModel
 import AdfObdd.CountsDef
+import AdfObdd.HeuMemo
 import AdfObdd.Cubes
 import AdfObdd.CountSearchK
 /-! Concrete executable model of `two_val_model_counts_logic` (as repaired, D1 + D4) and of
@@ -24,6 +25,31 @@ def heuB (s : Store) (interp : List Nat) (l r : Nat × Nat) : Ordering :=
 def minBy (cmp : (Nat × Nat) → (Nat × Nat) → Ordering) : List (Nat × Nat) → Option (Nat × Nat)
   | [] => none
   | x :: xs => some (xs.foldl (fun m y => if cmp m y == .gt then y else m) x)
+
+/-- `min_by` with a comparison that looks at keys only = `min_by` on the precomputed keys -/
+theorem minBy_keyed {K : Type} (key : Nat × Nat → K) (cmp : (Nat × Nat) → (Nat × Nat) → Ordering)
+    (cmpK : K → K → Ordering) (h : ∀ l r, cmp l r = cmpK (key l) (key r)) (xs : List (Nat × Nat)) :
+    minBy cmp xs = Memo.minByK cmpK (xs.map (fun p => (p, key p))) := by
+  cases xs with
+  | nil => rfl
+  | cons x xs => simp only [minBy, List.map_cons, Memo.minByK, Memo.foldl_keyed key cmp cmpK h]
+
+/-- the choice of `heu_a` with the keys of all candidates computed once (shared memos) -/
+def pickA (s : Store) (interp : List Nat) (cands : List (Nat × Nat)) : Option (Nat × Nat) :=
+  Memo.minByK Memo.cmpA (Memo.keysA s interp cands)
+/-- the choice of `heu_b` with the keys of all candidates computed once (shared memos) -/
+def pickB (s : Store) (interp : List Nat) (cands : List (Nat × Nat)) : Option (Nat × Nat) :=
+  Memo.minByK Memo.cmpB (Memo.keysPI s interp cands)
+
+theorem minBy_heuA (s : Store) (interp : List Nat) (cands : List (Nat × Nat)) :
+    minBy (heuA s interp) cands = pickA s interp cands := by
+  rw [pickA, Memo.keysA_eq]
+  exact minBy_keyed (fun p => (passive s p.1 interp, active s p.1 interp, minPaths s p.2)) (heuA s interp) Memo.cmpA (fun _ _ => rfl) cands
+
+theorem minBy_heuB (s : Store) (interp : List Nat) (cands : List (Nat × Nat)) :
+    minBy (heuB s interp) cands = pickB s interp cands := by
+  rw [pickB, Memo.keysPI_eq]
+  exact minBy_keyed (fun p => (minPaths s p.2, passive s p.1 interp)) (heuB s interp) Memo.cmpB (fun _ _ => rfl) cands
 
 def noInfIncons (a b : Nat) : Bool := sameInfo a b || !isTV a
 
@@ -107,6 +133,45 @@ def countParams (ac : List Nat) (useA : Bool) (unrepaired : Bool := false) :
     let concluded := c.1.zipIdx.map (fun (t, i) => if !isTV t then c.2.getD i 2 else t)
     let r := applyVec s concluded ac
     if consistentWith r.2 concluded then (r.1, [r.2]) else (r.1, [c.1])
+
+/-- `countParams` with the heuristic keys computed once per call (what the compiled driver runs) -/
+def countParamsM (ac : List Nat) (useA : Bool) (unrepaired : Bool := false) :
+    GK.CParams Store CState PCube (List Nat) where
+  pick s c := ((if useA then pickA s c.1 else pickB s c.1) (candidates c)).map (·.1)
+  goal s c idx := !moreModels (paths s (c.1.getD idx 0))
+  cubes s c idx g :=
+    let cs := cubesOf s (c.1.getD idx 0) g idx
+    if unrepaired then cs.takeWhile (fun cu => (applyCube c.1 c.2 cu).isSome) else cs
+  cubeStep s c idx g cu :=
+    match applyCube c.1 c.2 cu with
+    | none => (s, none)
+    | some ni =>
+      let ni := ni.set idx (if g then 1 else 0)
+      let upd := applyVec s ni ni
+      (upd.1, if consistentWith upd.2 c.2 then some (upd.2, c.2) else none)
+  flipStep s c idx g :=
+    -- conclude the other value
+    let ni := mapRestrict s idx (!g) c.1
+    let upd := applyVec ni.1 ni.2 ni.2
+    let nidx := ni.2.getD idx 0
+    if noInfIncons nidx (upd.2.getD idx 0) then
+      let other := if g then 0 else 1
+      if noInfIncons nidx other then (upd.1, some (upd.2.set idx other, c.2.set idx nidx))
+      else (upd.1, none)
+    else (upd.1, none)
+  leaf s c :=
+    let concluded := c.1.zipIdx.map (fun (t, i) => if !isTV t then c.2.getD i 2 else t)
+    let r := applyVec s concluded ac
+    if consistentWith r.2 concluded then (r.1, [r.2]) else (r.1, [c.1])
+
+@[csimp] theorem countParams_eq_countParamsM : @countParams = @countParamsM := by
+  funext ac useA unrepaired
+  unfold countParams countParamsM
+  congr 1
+  funext s c
+  cases useA
+  · simp only [Bool.false_eq_true, if_false, minBy_heuB]
+  · simp only [if_true, minBy_heuA]
 
 /-- `two_val_model_counts_logic`, `fuel` levels of recursion -/
 def countLogic (ac : List Nat) (useA : Bool) (fuel : Nat) (s : Store) (interp willBe : List Nat) :
